@@ -182,6 +182,12 @@ class PosePath3D(object):
                 self._poses_se3.append(self._poses_se3[j].dot(rel_poses[i]))
         else:
             self._poses_se3 = [np.dot(t, p) for p in self.poses_se3]
+        if lie.is_sim3(t) and not lie.is_se3(t):
+            # Sim(3) scales positions only, the poses have to stay in SE(3).
+            self._poses_se3 = [
+                lie.se3(p[:3, :3] / lie.sim3_scale(p), p[:3, 3])
+                for p in self._poses_se3
+            ]
         self._positions_xyz, self._orientations_quat_wxyz \
             = se3_poses_to_xyz_quat_wxyz(self.poses_se3)
 
